@@ -23,7 +23,7 @@ type c02Scenario struct {
 }
 
 func c02ParkOn(l string) bool {
-	return strings.HasPrefix(l, "gauge.update") || strings.HasPrefix(l, "gauge.report")
+	return strings.HasPrefix(l, "gauge.update") || strings.HasPrefix(l, "gauge.report") || l == "rep.gauge"
 }
 
 func runC02(c *Ctx, sc c02Scenario, ch Chooser) (trace []string, failed bool) {
@@ -41,6 +41,12 @@ func runC02(c *Ctx, sc c02Scenario, ch Chooser) (trace []string, failed bool) {
 	root, closer := tally.VerifNewRootScope(opts, 0, 1)
 	g := root.Gauge("g")
 	logp.Take()
+	// the entry of the reporter call is a schedule point: the value has been read, it is not yet delivered
+	logp.Pre = func(e *Ev) {
+		if e.Kind == "gauge" {
+			hook("rep.gauge", u64hex(math.Float64bits(e.F)))
+		}
+	}
 	d := c.Drv
 	modelOn := true
 	say := func(line string) {
@@ -99,8 +105,12 @@ func runC02(c *Ctx, sc c02Scenario, ch Chooser) (trace []string, failed bool) {
 		if wLive {
 			opts = append(opts, opt{kind: "w"})
 		}
+		mutexFree := true
+		if modelOn {
+			mutexFree = d.Ask("canswap") == "ok yes"
+		}
 		for _, v := range viss {
-			if v.live {
+			if v.live && (v.t.At != "gauge.report:0" || mutexFree) {
 				opts = append(opts, opt{kind: "r", v: v})
 			}
 		}
@@ -138,12 +148,14 @@ func runC02(c *Ctx, sc c02Scenario, ch Chooser) (trace []string, failed bool) {
 			v := o.v
 			tid := v.t.Name[1:]
 			before := v.t.At
-			label, _ := s.Step(v.t)
+			label, arg := s.Step(v.t)
 			switch {
 			case label == "blocked" || label == "panic":
 				c.Cov.Fail(Failure{Kind: "crash", Clause: label, Signature: "c02-" + sc.name, Line: strings.Join(trace, " | ")})
 				failed, v.live = true, false
-			case before == "gauge.report:1":
+			case label == "rep.gauge":
+				say(fmt.Sprintf("r %s rep.gauge %s", tid, arg))
+			case before == "rep.gauge":
 				got := takeG()
 				delivered = append(delivered, got...)
 				if len(got) == 1 {
@@ -172,6 +184,7 @@ func runC02(c *Ctx, sc c02Scenario, ch Chooser) (trace []string, failed bool) {
 			say("r 999 visit-end")
 		} else {
 			say("r 999 gauge.report:1")
+			say(fmt.Sprintf("r 999 rep.gauge %s", u64hex(a[0])))
 			say(fmt.Sprintf("r 999 visit-end %s", u64hex(a[0])))
 		}
 	}
@@ -203,7 +216,7 @@ func runC02(c *Ctx, sc c02Scenario, ch Chooser) (trace []string, failed bool) {
 }
 
 func suiteC02(c *Ctx) {
-	c.Cov.Rule = "schedule-controlled executions of one updating goroutine (1-4 updates incl. NaN payloads, ±0, ±Inf, subnormals) against 1-3 report passes on one gauge, plain and cached reporter; each atomic step of the real code (value store, flag store, swap, load+deliver) validated against the Lean model; oracle Spec.C02.holds on observed deliveries after one more solo pass; nontrivial = a reporter was parked between swap and load, or a pass ran between the writer's two stores; distinct by step trace"
+	c.Cov.Rule = "schedule-controlled executions of one updating goroutine (1-4 updates incl. NaN payloads, ±0, ±Inf, subnormals) against 1-3 report passes on one gauge, plain and cached reporter; each atomic step of the real code (value store, flag store, lock+swap, load, deliver) validated; a reporter is resumed at the mutex only when the model says it is free against the Lean model; oracle Spec.C02.holds on observed deliveries after one more solo pass; nontrivial = a reporter was parked between swap and load or between load and delivery, or a pass ran between the writer's two stores; distinct by step trace"
 	start := time.Now()
 	variants := []struct {
 		name   string
